@@ -1354,7 +1354,8 @@ PROPS["C03"] = dict(
                "enumerated description -- exhaustively on the stated small scope -- so the check does not go through the model at all for the iff; "
                "C03_model_decision_refines_core / C03_model_accepts_iff_realisable: the model's decision code (placement fold, size padding, naming, alignment checks) returns Ok exactly when the core accepts, i.e. iff the description is realisable; "
                "C03_type_build_accepts_iff (C03Whole.v): the model's whole type_build (attribute scan, statement loop, placement, alignment checks) returns Ok iff the attributes are well formed and the description is realisable, with accept's size and alignment, and an error value -- never a deferral or panic -- otherwise, for every description in the decidable class class_okb (plain fields of known size and power-of-two alignment; no vftable block, base field or defaultable marker); model, core and implementation are still compared on a sample of 3000 per run.",
-    level_note="Trusted: Coq kernel; the spec C03Core.realisable as the reading of the property text (two interpretations fixed in DESIGN.md section 7: "
+    level_note="C03_bases_type_build_accepts_iff / C03_vft_type_build_accepts_iff (C03Bases.v, C03Vft.v): the same equivalence for descriptions with #[base] fields, an impl block, the defaultable marker and a vftable block (own or shared pointer): Ok iff attributes well formed, realisable (a base is one member of its type's size and alignment; the pointer first) and the decidable extras the code demands; an error value otherwise. "
+               "Trusted: Coq kernel; the spec C03Core.realisable as the reading of the property text (two interpretations fixed in DESIGN.md section 7: "
                "zero-length arrays keep their place but are not members; 'sole member' counts gaps); sizes/alignments of built-in types per pointer width are inputs "
                "computed by tools/c03.py; field alignments are powers of two (wf_fields).",
     technique="Coq proof of accept <-> realisable on the arithmetic core; exhaustive small-scope + random comparison of the real verdict with the reflected spec",
